@@ -84,4 +84,37 @@ def vrun (k : Kind) (d : Dict) : List VOp → Dict × List VOut
     let (d'', os) := vrun k d' ops
     (d'', o :: os)
 
+/-- the rest of the OrderedDict interface a caller can reach (outside the property's own alphabet of reads,
+assignments and deletions): `clear`, `setdefault`, `move_to_end` -/
+inductive VOpX
+  | base (op : VOp)
+  | clear
+  | setDefault (k : Str) (v : Str)
+  | moveToEnd (k : Str) (last : Bool)
+deriving Repr, DecidableEq
+
+def vstepX (k : Kind) (d : Dict) : VOpX → Dict × VOut
+  | .base op => vstep k d op
+  | .clear =>
+    if k = .smChart then (d, .notImplemented) else ([], .done)
+  | .setDefault key v =>
+    -- OrderedDict.setdefault on a subclass: `key in self`, then `self[key]` or `self[key] = default`
+    if d.contains key then
+      (if k = .smChart then
+        (if T.smChartProperties.contains key then (d, .value (attrGet .smChart d (lower key))) else (d, .keyError))
+       else (d, .value ((d.get? key).getD none)))
+    else if k = .smChart && !T.smChartProperties.contains key then (d, .keyError)
+    else (d.set key (some v), .value (some v))
+  | .moveToEnd key last =>
+    match d.get? key with
+    | none => (d, .keyError)
+    | some v => (if last then d.erase key ++ [(key, v)] else (key, v) :: d.erase key, .done)
+
+def vrunX (k : Kind) (d : Dict) : List VOpX → Dict × List VOut
+  | [] => (d, [])
+  | op :: ops =>
+    let (d', o) := vstepX k d op
+    let (d'', os) := vrunX k d' ops
+    (d'', o :: os)
+
 end Simfile
